@@ -330,6 +330,120 @@ fn optonly(prog_file: &str, level: u8, fd: i32) {
     let _ = writeln!(f, "{}", line);
 }
 
+/// mechanism dump (binding diagnostics, never a verdict): what optimize() produced for a program -
+/// renumbered commands, vector size, and at level 2 how far pre-execution got and the state it left
+fn optdump(input: &str, out: &str) {
+    use hyeong::core::code::Code;
+    let cases = read_cases(input);
+    let mut w = std::io::BufWriter::new(std::fs::File::create(out).unwrap());
+    for case in cases {
+        let codes: Vec<UnOptCode> = codes_of(&case["prog"]);
+        let n = codes.len();
+        for level in [1u8, 2u8] {
+            let r = guarded(|| optimize::optimize(codes.clone(), level));
+            let ev = match r {
+                Ok(Ok((mut state, code))) => {
+                    let cmds: Vec<Value> = code
+                        .iter()
+                        .map(|c| json!({"k": c.get_type(), "h": c.get_hangul_count(), "d": c.get_dot_count(), "cnt": c.get_area_count()}))
+                        .collect();
+                    let mut st = Vec::new();
+                    for i in 0..state.stack_size() {
+                        if i == 1 || i == 2 {
+                            continue;
+                        }
+                        let s = state.get_stack(i);
+                        if !s.is_empty() {
+                            st.push(json!([i, s.iter().map(num_compact).collect::<Vec<_>>()]));
+                        }
+                    }
+                    let text = |state: &mut hyeong::core::state::OptState, i: usize| -> Vec<u32> {
+                        if i < state.stack_size() {
+                            state.get_stack(i).iter().map(|v| v.floor().to_int()).collect()
+                        } else {
+                            Vec::new()
+                        }
+                    };
+                    let mut labels: Vec<Value> = state
+                        .get_all_point()
+                        .iter()
+                        .map(|(id, loc)| json!([(*id >> 4) as u64, (*id & 15) as u64, *loc]))
+                        .collect();
+                    labels.sort_by_key(|v| v.to_string());
+                    json!({"ev":"optdump","prog":case["prog"],"level":level,"ok":true,"size":state.stack_size(),"k": n - code.len(),
+                           "code":cmds,"cur":state.current_stack(),"last":state.get_latest_loc().map(|x| x as i64).unwrap_or(-1),
+                           "labels":labels,"st":st,"out":text(&mut state, 1),"err":text(&mut state, 2)})
+                }
+                Ok(Err(e)) => json!({"ev":"optdump","prog":case["prog"],"level":level,"ok":false,"error":e.get_msg()}),
+                Err(m) => json!({"ev":"optdump","prog":case["prog"],"level":level,"ok":false,"error":format!("panic: {}", m)}),
+            };
+            writeln!(w, "{}", ev).unwrap();
+        }
+    }
+    w.flush().unwrap();
+}
+
+/// mechanism dump of the compiler (binding diagnostics): block count, start block, restored label table and
+/// pending return-jump target, read off the emitted source
+fn compdump(input: &str, out: &str) {
+    let cases = read_cases(input);
+    let mut w = std::io::BufWriter::new(std::fs::File::create(out).unwrap());
+    for case in cases {
+        let codes: Vec<UnOptCode> = codes_of(&case["prog"]);
+        for level in [0u8, 1u8, 2u8] {
+            let cs = codes.clone();
+            let r = guarded(move || {
+                if level >= 1 {
+                    optimize::optimize(cs, level).map(|(state, code)| compile::build_source(state, &code, level))
+                } else {
+                    Ok(compile::build_source(UnOptState::new(), &cs, 0))
+                }
+            });
+            let ev = match r {
+                Ok(Ok(src)) => {
+                    let mut blocks: i64 = 0;
+                    let mut start: i64 = 0;
+                    let mut last: i64 = -1;
+                    let mut points: Vec<Value> = Vec::new();
+                    let mut in_main = false;
+                    for line in src.lines() {
+                        let t = line.trim();
+                        if t.starts_with("fn main()") {
+                            in_main = true;
+                        }
+                        if !in_main {
+                            continue;
+                        }
+                        if let Some(r) = t.strip_prefix("while state < ") {
+                            blocks = r.trim_end_matches(" {").parse().unwrap_or(-1);
+                            break;
+                        }
+                        if let Some(r) = t.strip_prefix("state = ") {
+                            start = r.trim_end_matches(';').parse().unwrap_or(-1);
+                        }
+                        if let Some(r) = t.strip_prefix("last = Option::") {
+                            last = if r.starts_with("None") { -1 } else { r.trim_start_matches("Some(").trim_end_matches(");").parse().unwrap_or(-2) };
+                        }
+                        if let Some(r) = t.strip_prefix("point.insert(") {
+                            let parts: Vec<&str> = r.trim_end_matches(");").split("u128, ").collect();
+                            if parts.len() == 2 {
+                                let id: u64 = parts[0].parse().unwrap_or(0);
+                                let b: i64 = parts[1].parse().unwrap_or(-1);
+                                points.push(json!([id >> 4, id & 15, b]));
+                            }
+                        }
+                    }
+                    json!({"ev":"compdump","prog":case["prog"],"level":level,"ok":true,"blocks":blocks,"start":start,"last":last,"points":points})
+                }
+                Ok(Err(e)) => json!({"ev":"compdump","prog":case["prog"],"level":level,"ok":false,"error":e.get_msg()}),
+                Err(m) => json!({"ev":"compdump","prog":case["prog"],"level":level,"ok":false,"error":format!("panic: {}", m)}),
+            };
+            writeln!(w, "{}", ev).unwrap();
+        }
+    }
+    w.flush().unwrap();
+}
+
 fn main() {
     quiet_panics();
     let args: Vec<String> = std::env::args().collect();
@@ -362,6 +476,8 @@ fn main() {
                 jobs,
             )
         }
+        Some("optdump") => optdump(&arg(&args, "--in").unwrap(), &arg(&args, "--out").unwrap()),
+        Some("compdump") => compdump(&arg(&args, "--in").unwrap(), &arg(&args, "--out").unwrap()),
         Some("emit") => emit_source(&arg(&args, "--prog").unwrap(), arg(&args, "--level").and_then(|s| s.parse().ok()).unwrap_or(0)),
         Some("optonly") => optonly(
             &arg(&args, "--prog").unwrap(),
